@@ -19,7 +19,7 @@ import (
 
 // c05Case is one point of the promotion lattice.
 type c05Case struct {
-	Strategy     int // 0 none, 1 auto, 2 manual
+	Strategy     int // 0 none, 1 auto, 2 manual, 3 manual with duration / noRestartsDuration left over from auto mode (a strategy edit during the canary; validation rejects it, time must not promote)
 	AgeVsDur     int // 0: 1s before the duration ends, 1: exactly at it, 2: 1s after, 3: long after
 	NoRestarts   int // 0 default (unset), 1 zero, 2 one minute
 	LastRestart  int // 0 none, 1 well before the limit (long ago), 2 exactly noRestartsDuration ago, 3 recent (inside the window)
@@ -66,6 +66,11 @@ func runC05(k c05Case) (vs []mon.V, nontrivial bool, err error) {
 			cn.ValidationMode = edsv1.ExtendedDaemonSetSpecStrategyCanaryValidationModeManual
 		}
 		st.Canary = cn
+		if k.Strategy == 3 {
+			// the canary starts in auto mode; the mode is switched below, once the canary replica set exists
+			cn.ValidationMode = edsv1.ExtendedDaemonSetSpecStrategyCanaryValidationModeAuto
+			cn.Duration = &metav1.Duration{Duration: c05Duration}
+		}
 	}
 	// with a strategy the second letter stays a canary; without one we must stop
 	// before the reconcile that would promote it, so build by hand in both cases:
@@ -87,6 +92,11 @@ func runC05(k c05Case) (vs []mon.V, nontrivial bool, err error) {
 	}
 	if target == "" {
 		return nil, false, fmt.Errorf("harness: second replica set missing")
+	}
+	if k.Strategy == 3 {
+		_ = c.EditEDS("ns1", "foo", func(x *edsv1.ExtendedDaemonSet) {
+			x.Spec.Strategy.Canary.ValidationMode = edsv1.ExtendedDaemonSetSpecStrategyCanaryValidationModeManual
+		})
 	}
 	created := c.ERS("ns1", target).CreationTimestamp.Time
 	var now time.Time
@@ -176,7 +186,7 @@ func letterTpl(l byte) corev1.PodTemplateSpec {
 
 func c05Draw(rt *rapid.T) c05Case {
 	return c05Case{
-		Strategy: rapid.IntRange(0, 2).Draw(rt, "strategy"), AgeVsDur: rapid.IntRange(0, 3).Draw(rt, "age"),
+		Strategy: rapid.IntRange(0, 3).Draw(rt, "strategy"), AgeVsDur: rapid.IntRange(0, 3).Draw(rt, "age"),
 		NoRestarts: rapid.IntRange(0, 2).Draw(rt, "noRestarts"), LastRestart: rapid.IntRange(0, 3).Draw(rt, "lastRestart"),
 		Pause: rapid.IntRange(0, 2).Draw(rt, "pause"), Unpaused: rapid.Bool().Draw(rt, "unpaused"), Valid: rapid.IntRange(0, 2).Draw(rt, "valid"),
 		Failed: rapid.Bool().Draw(rt, "failed"), ActiveExists: rapid.IntRange(0, 3).Draw(rt, "activeExists") != 0,
@@ -192,7 +202,7 @@ func c05Report(rec *evid.Rec, k c05Case, vs []mon.V) {
 
 // TestC05Lattice samples the promotion lattice (quick) ...
 func TestC05Lattice(t *testing.T) {
-	rec := evid.New("TestC05Lattice", "C05", "point of the promotion lattice {strategy absent/auto/manual} x {age vs duration: -1s, 0, +1s, >>} x {noRestartsDuration default/0/1m} x {last restart none/old/at the limit/recent} x {pause none/annotation/condition} x unpaused x {canary-valid absent/this/other} x failed x {recorded active set exists / exists but is being deleted (finalizer) / is gone} x {status.canary unset / names the matching set / names a superseded one}, then one EDS reconcile judged by the promotion rule; non-trivial = canary strategy present and the active set exists (the rule, not a shortcut, decides); distinct by lattice point")
+	rec := evid.New("TestC05Lattice", "C05", "point of the promotion lattice {strategy absent/auto/manual/manual with a duration left over} x {age vs duration: -1s, 0, +1s, >>} x {noRestartsDuration default/0/1m} x {last restart none/old/at the limit/recent} x {pause none/annotation/condition} x unpaused x {canary-valid absent/this/other} x failed x {recorded active set exists / exists but is being deleted (finalizer) / is gone} x {status.canary unset / names the matching set / names a superseded one}, then one EDS reconcile judged by the promotion rule; non-trivial = canary strategy present and the active set exists (the rule, not a shortcut, decides); distinct by lattice point")
 	t.Cleanup(func() {
 		if !t.Failed() {
 			rec.Done()
@@ -218,11 +228,11 @@ func TestC05Lattice(t *testing.T) {
 
 // ... and TestC05Exhaustive enumerates it completely (thorough; sharded by the driver).
 func TestC05Exhaustive(t *testing.T) {
-	rec := evid.New("TestC05Exhaustive", "C05", "complete enumeration of the promotion lattice (36288 points, the recorded active set existing / terminating / gone, incl. the recorded status.canary: unset / the matching set / a stale other name), one EDS reconcile each; non-trivial = canary strategy present and the active set exists")
+	rec := evid.New("TestC05Exhaustive", "C05", "complete enumeration of the promotion lattice (48384 points, the recorded active set existing / terminating / gone, incl. the recorded status.canary: unset / the matching set / a stale other name), one EDS reconcile each; non-trivial = canary strategy present and the active set exists")
 	shard, shards := envInt("VERIF_SHARD", 0), envInt("VERIF_SHARDS", 1)
 	i := 0
 	failed := false
-	for s := 0; s < 3; s++ {
+	for s := 0; s < 4; s++ {
 		for a := 0; a < 4; a++ {
 			for nr := 0; nr < 3; nr++ {
 				for lr := 0; lr < 4; lr++ {
